@@ -4,6 +4,7 @@ import (
 	"github.com/lab5e/lospan/pkg/lg"
 	"github.com/lab5e/lospan/pkg/protocol"
 	"github.com/lab5e/lospan/pkg/server"
+	"github.com/lab5e/lospan/pkg/verifgate"
 )
 
 // Decoder is the process that decodes the bytes received from the gateway interface into go structs.
@@ -18,6 +19,8 @@ type Decoder struct {
 func (d *Decoder) Start() {
 	for p := range d.input {
 		go func(raw server.GatewayPacket) {
+			verifgate.Gate("enter:decoder")
+			defer verifgate.Gate("exit:decoder")
 			// The initial message type isn't important
 			decoded := protocol.NewPHYPayload(protocol.Proprietary)
 			if err := decoded.UnmarshalBinary(raw.RawMessage); err != nil {
@@ -31,6 +34,7 @@ func (d *Decoder) Start() {
 				Payload:      decoded,
 				FrameContext: context,
 			}
+			verifgate.Gate("handoff:decoded")
 			d.output <- msg
 		}(p)
 	}
